@@ -358,8 +358,8 @@ def main_c08():
             chk.absorb_dict(r)
     except ImportError:
         chk.outside.append("interactive builder output (see C16)")
-    chk.input_model = "M-ASSIGN (scores abstracted): clean_vector() and the vector part of rh_vector() as structured strings; re-parsed by the real constructor and run through an NFA of the official vectorString pattern (pinned copy of tests/schemas, read at run time)"
-    chk.bounds = ["none on the metric domain"]
+    chk.input_model = "M-ASSIGN (scores abstracted): clean_vector() and the vector part of rh_vector() as structured strings; re-parsed by the real constructor and run through an NFA of the official vectorString pattern (pinned copy of tests/schemas, read at run time); the interactive builder's result in the 8 configurations of C16 (M-ANSWERS)"
+    chk.bounds = ["none on the metric domain", "interactive builder: as C16 (finite answer alphabet, retry bound)"]
     chk.stubs = ["compute_*_score := arbitrary scores (the emitted vector does not depend on them)"]
     chk.assumptions = ["official patterns: /verif/spec/schemas/*.json (SHA-256 pinned)", "regex engine /verif/spec/regex_nfa.py (validated against Python re on 12,000 strings)"]
     C.finish(chk)
